@@ -349,44 +349,46 @@ func c01LossSignalled(c *Ctx) {
 		}
 		bad := 0
 		n := 0
-		for _, b := range fn.Blocks {
-			for _, in := range b.Instrs {
-				ci, ok := in.(*ssa.Call)
-				if !ok || ci.Call.StaticCallee() == nil || !strings.HasSuffix(ci.Call.StaticCallee().Name(), "Encoded") {
-					continue
-				}
-				// only per-reader (session) writes, not the multicast writer (whose error is returned)
-				if !strings.Contains(fnShort(ci.Call.StaticCallee()), "serverSession") {
-					continue
-				}
-				n++
-				// err != nil edge must call onStreamWriteError
-				okErr := false
-				for _, rr := range *ci.Referrers() {
-					bo, ok := rr.(*ssa.BinOp)
-					if !ok || bo.Op != token.NEQ || !isNilConst(bo.Y) {
+		for _, hf := range withHelpers(fn, 2) {
+			for _, b := range hf.Blocks {
+				for _, in := range b.Instrs {
+					ci, ok := in.(*ssa.Call)
+					if !ok || ci.Call.StaticCallee() == nil || !strings.HasSuffix(ci.Call.StaticCallee().Name(), "Encoded") {
 						continue
 					}
-					for _, u := range *bo.Referrers() {
-						if iff, ok := u.(*ssa.If); ok {
-							for _, in2 := range iff.Block().Succs[0].Instrs {
-								if c2, ok := in2.(*ssa.Call); ok && isFn(c2.Call.StaticCallee(), "", "ServerSession.onStreamWriteError") {
-									okErr = true
+					// only per-reader (session) writes, not the multicast writer (whose error is returned)
+					if !strings.Contains(fnShort(ci.Call.StaticCallee()), "serverSession") {
+						continue
+					}
+					n++
+					// err != nil edge must call onStreamWriteError
+					okErr := false
+					for _, rr := range *ci.Referrers() {
+						bo, ok := rr.(*ssa.BinOp)
+						if !ok || bo.Op != token.NEQ || !isNilConst(bo.Y) {
+							continue
+						}
+						for _, u := range *bo.Referrers() {
+							if iff, ok := u.(*ssa.If); ok {
+								for _, in2 := range iff.Block().Succs[0].Instrs {
+									if c2, ok := in2.(*ssa.Call); ok && isFn(c2.Call.StaticCallee(), "", "ServerSession.onStreamWriteError") {
+										okErr = true
+									}
 								}
 							}
 						}
 					}
-				}
-				if !okErr {
-					// the error may first be stored into a variable (err = ...): look for the pattern through the store
-					for _, rr := range *ci.Referrers() {
-						if st, ok := rr.(*ssa.Store); ok {
-							_ = st
+					if !okErr {
+						// the error may first be stored into a variable (err = ...): look for the pattern through the store
+						for _, rr := range *ci.Referrers() {
+							if st, ok := rr.(*ssa.Store); ok {
+								_ = st
+							}
 						}
 					}
-				}
-				if !okErr {
-					bad++
+					if !okErr {
+						bad++
+					}
 				}
 			}
 		}
